@@ -122,6 +122,15 @@ def _r1(ctx, f):
     # c: the name bound to an expression of cpu_count() (any positive value works for the lemma)
     cdefs = [a for a in ast.walk(f.node) if isinstance(a, ast.Assign) and isinstance(a.targets[0], ast.Name)
              and C.calls_to(a.value, "cpu_count")]
+    if len(nvars) != 1:
+        # the bound that clamps the slice ends / feeds the chunk size, when it is the length of something else
+        other = [a for a in ast.walk(f.node) if isinstance(a, ast.Assign) and isinstance(a.targets[0], ast.Name)
+                 and a.targets[0].id == U(be["M_n"]) and C.is_call_to(a.value, "len")]
+        if len(other) == 1:
+            ctx.node_bad("R1", f, other[0], "the slices are taken from `%s` but clamped to (and sized by) `%s`, which is not its length: the last "
+                         "len(%s) - %s lines are given to no worker and are never used as search roots (loop-carried dependencies through "
+                         "them are lost in the multi-process search only)" % (kern, U(other[0]), kern, U(other[0].targets[0])))
+            return
     if len(nvars) != 1 or len(cdefs) != 1:
         ctx.broken("R1: n = len(kernel) / c = <expression of cpu_count()> definitions not found (n: %s, c: %s)" % (
             nvars, [U(a) for a in cdefs]))
@@ -183,6 +192,29 @@ def _r1(ctx, f):
     ctx.check(thr is not None and bool(br) and U(br[0].test) == "%s >= self.INSTRUCTION_THRESHOLD" % n, "R1",
               "parallel search for n >= INSTRUCTION_THRESHOLD (%s)" % (U(thr) if thr is not None else "?"), f.where(),
               "threshold test changed", f.qname, "threshold")
+
+
+def reuse_r1(ctx, rule, why):
+    """The partition premises (R1) as an obligation of another property."""
+    from .. import report as _report
+    f = ctx.func("KernelDG.check_for_loopcarried_dep")
+    sub = _report.Ctx("C16", ctx.repo, ctx.tier, ctx.data)
+    try:
+        _r1(sub, f)
+    except Exception as e:        # AnalysisError of the sub-analysis: not understood here either
+        ctx.unknown(rule, "parallel roots (C16-R1)", f.where(), str(e)[:300])
+        return
+    for ob in sub.obligations:
+        if ob["status"] == "violated":
+            continue
+        new_ob = dict(ob)
+        new_ob["rule"] = rule
+        new_ob["instance"] = "parallel roots (C16-R1): " + ob["instance"]
+        ctx.obligations.append(new_ob)
+    for fd in sub.findings:
+        ctx.bad(rule, "parallel roots (C16-R1): " + fd.construct, fd.where, why + ": " + fd.detail, fd.scope, fd.construct)
+    for u in getattr(sub, "unknowns", []):
+        ctx.unknown(rule, "parallel roots (C16-R1)", f.where(), u)
 
 
 def _r2(ctx, f):
